@@ -117,6 +117,7 @@ func propC19(e *Env) {
 	for _, i := range extra {
 		base[fmt.Sprintf("extra%d.mtail", i)] = snapProg(fmt.Sprintf("extra%d.mtail", i))
 	}
+	enableShortReads(e)
 	store := metrics.NewStore()
 	ctx, cancel := context.WithCancel(context.Background())
 	defer cancel()
